@@ -95,6 +95,8 @@ class SrvExec(Exec):
         self.state = {'stop': False, 'ncalls': 0}
         self.oracles = set(cfg.get('oracles', ['answers', 'shutdown']))
         self.ens_details = {}
+        self._round = 0
+        self._cur_round = 0
 
     # ------------------------------------------------------------------ workers
     def worker_cls(self, tag, batch=0):
@@ -122,7 +124,7 @@ class SrvExec(Exec):
                     raise Boom('init', tag, kw['worker_index'])
 
             def call(self, x):
-                ex.invocations.append((tag, tuple(x) if batch else x))
+                ex.invocations.append((tag, tuple(x) if batch else x, ex._round))
                 ex.state['ncalls'] += 1
                 if gated:
                     key = (tag, tuple(x) if batch else x)
@@ -192,7 +194,7 @@ class SrvExec(Exec):
             if x in pre.get('A', ()):
                 return norm_val(Boom('preA', x))
             # exactly the members of the failing call() invocation fail (invocations are recorded by the worker)
-            mine = [inv for tag, inv in self.invocations if x in inv]
+            mine = [inv for tag, inv, rnd in self.invocations if x in inv and rnd == self._cur_round]
             if len(mine) != 1:
                 return ('BAD-BATCHING', tuple(mine))
             if any(v in fail.get('A', ()) for v in mine[0]):
@@ -297,12 +299,14 @@ class SrvExec(Exec):
         cfg = self.cfg
         s = sched.S()
         for rnd in range(cfg.get('rounds', 1)):
+            self._round = rnd
             res = {}
             enter_exc = None
             try:
                 server.__enter__()
             except Exception as e:
                 enter_exc = norm_exc(e)
+                self.settle()
                 rounds_info.append(dict(enter_exc=enter_exc, alive=self.live(), gather_alive=None, backlog=None))
                 break
             self.server = server
@@ -344,12 +348,19 @@ class SrvExec(Exec):
             if cfg.get('drain_before_exit', True):
                 # let the results of abandoned requests emerge: an idle server must have backlog 0
                 s.block(lambda: not self.waiting and len(server._uid_to_futures) == 0, 50.0, on='idle-wait')
-            info['backlog'] = len(server._uid_to_futures)
+            info['backlog'] = len(server._uid_to_futures) if cfg.get('drain_before_exit', True) else 0
             server.__exit__(None, None, None)
             self.server = None
+            self.settle()
             info['alive'] = self.live()
             results.append(res)
             rounds_info.append(info)
+
+    def settle(self):
+        # helper threads that end by themselves a moment later (e.g. the logger thread of a worker process, which ends
+        # when the end of the child's log stream arrives) are not leaks: give them 5 virtual seconds
+        s = sched.S()
+        s.block(lambda: not self.live(), 5.0, on='settle')
 
     def live(self):
         s = sched.S()
@@ -371,6 +382,7 @@ class SrvExec(Exec):
             return v
         results, rounds = r.value
         for rnd, (res, info) in enumerate(zip(results, rounds)):
+            self._cur_round = rnd
             for k, outs in res.items():
                 if k == 'stream':
                     v = self.check_stream(outs)
@@ -517,6 +529,7 @@ class ASrvExec(SrvExec):
 
         async def main():
             for rnd in range(cfg.get('rounds', 1)):
+                self._round = rnd
                 res = {}
                 try:
                     await server.__aenter__()
